@@ -45,12 +45,13 @@ DONE = {
   'every integer residue number the written line is read back as exactly (chain, number), and that a whole zone file is read back as exactly the '
   'in-memory zone (so the three zone sources are interchangeable), and that the writer publishes atomically; and that on structures listing the same '
   'atoms in the same order the fast and the SQL i-RMSD route use the same coordinate lists and report the same value for the same rotation, and that the SQL route selects '
-  'the same reference rows with and without a zone file. Route agreement in general: on generated pairs '
+  'the same reference rows with and without a zone file; likewise fast = SQL for the L-RMSD when both routes pick the same long chain (else F5), and the two Fnat routes agree '
+  '(both equal the C08 specification). Route agreement in general: on generated pairs '
   '(incl. equal-sized chains, rank-differing chains, incomplete decoys, negative numbers) all call forms of each measure — {fast, SQL} x {svd, '
   'quaternion} x {no zone file, written, read back}, and both Fnat routes — are run and compared pairwise; zone files written by the library are '
   'compared with the model text and read back through both consumers.',
   'regenerated zone format + Coq round-trip theorems (string lemmas, induction over the zone) + exhaustive call-form comparison on generated pairs',
-  'PARTIAL: fast = SQL is a theorem for the i-RMSD on aligned structures only; otherwise fast = SQL and svd = quaternion follow from C07 and C06 theorems and are decided per run by execution. '
+  'PARTIAL: fast = SQL for the RMSD measures is a theorem on aligned structures (same atoms, same order) only; otherwise it and svd = quaternion follow from C07 and C06 theorems and are decided per run by execution. '
   'Known finding F5 (the two L-RMSD routes choose the long chain differently on ambiguous sizes). Print Assumptions: closed under the global context.'),
  'C10': ('§5.C10',
   'Rodrigues matrix, Euler matrices and product order, rotate, translation, the database wrappers and the random axis/angle are regenerated once against a number '
